@@ -212,6 +212,10 @@ def gen_file(rng, n, *, newline=None, final_newline=None):
         if rng.random() < 0.1:
             out.append('; trailing comment' + nl)
             out.append(nl)
+    if rng.random() < 0.12:
+        # the tail of the file: a line of blanks only, then a comment nobody is next to
+        out.append(rng.choice(['  ', '\t', '    ']) + nl)
+        out.append('; tail note' + nl)
     text = ''.join(out)
     fin = final_newline if final_newline is not None else rng.random() < 0.85
     if not fin and text.endswith(nl):
